@@ -5,8 +5,7 @@ import Wayfind.Proofs.Registry5
 On every router reachable through the API, if some stored route can be laid over the path (`Fits`, for an arbitrary
 constraint environment — in particular constraints that are not prefix-closed), `search` returns a match; `None` only
 when nothing fits.
-Status: on live templates for histories whose inserted templates have pairwise different expansions (see C01); on
-stored routes for all histories. -/
+Status: proved on stored routes and on live templates, for every history. -/
 
 theorem C02_complete (env : Env) (r : Router) (h : Reachable r) (path : Bytes)
     (hfit : ∃ rt ∈ Node.routes r.root, ∃ vs, Fits env rt.parts path vs) :
